@@ -85,6 +85,7 @@ def run(prog, chk):
     utf8_table(prog, chk)
     integer_table(prog, chk)
     imprint_table(prog, chk)
+    legacy_id_table(prog, chk)
     _run(prog, chk)
 
 
@@ -420,3 +421,45 @@ def imprint_table(prog, chk):
                    nontrivial=ok_expected or (want_len is not None and total == want_len + 2))
     if n < 40:
         raise AnalysisBroken("imprint table: only %d cases" % n)
+
+
+def legacy_id_table(prog, chk):
+    """legacyId_verify over 29-octet (and other length) byte strings: 03 00 len text zero-padding, len <= 25, every octet after the text zero."""
+    from ksirules.interp import Interp, Ptr, succeed_model
+    chk.rule("C10.legacyid", "legacy identifier: fixed length 29, header 03 00, text length <= 25, terminator and padding all zero (byte table)", floor=20)
+    fn = prog.fn("legacyId_verify", "hashchain.c")
+    cp, rp, lp = [p["n"] for p in fn.params]
+    FMT = prog.const("KSI_INVALID_FORMAT")
+
+    def good(n):
+        return [3, 0, n] + [0x41 + (k % 20) for k in range(n)] + [0] * (26 - n)
+    cases = []
+    for n in (0, 1, 2, 24, 25):
+        cases.append(("text of %d octets" % n, good(n), True))
+        g = good(n)
+        # a non-zero octet at the terminator position, right after it, and at the very end
+        for name, pos in (("terminator", 3 + n), ("first padding octet", 4 + n), ("last octet", 28)):
+            if pos <= 28 and pos >= 3 + n:
+                b = list(g)
+                b[pos] = 0xff
+                cases.append(("text of %d octets, non-zero %s" % (n, name), b, False))
+    cases += [("length octet 26", [3, 0, 26] + [0x41] * 26, False), ("length octet 255", [3, 0, 255] + [0x41] * 26, False),
+              ("first octet 02", [2, 0, 1, 0x41] + [0] * 25, False), ("second octet 01", [3, 1, 1, 0x41] + [0] * 25, False),
+              ("28 octets", good(3)[:28], False), ("30 octets", good(3) + [0], False), ("empty", [], False)]
+    seen = set()
+    for name, bs, want in cases:
+        if (name, tuple(bs)) in seen:
+            continue
+        seen.add((name, tuple(bs)))
+        inputs = {cp: Ptr("ctx"), rp: Ptr("RAW"), lp: len(bs)}
+        for k, b in enumerate(bs):
+            inputs["RAW[%d]" % k] = b
+        I = Interp(fn, inputs=inputs, call_model=succeed_model(prog), on_unknown="stop", prog=prog, loop_bound=34)
+        paths = I.run()
+        chk.paths += len(paths)
+        if len(paths) != 1 or paths[0].undetermined:
+            raise AnalysisBroken("legacyId_verify: evaluation not determined for %s: %s" % (name, [q.undetermined[:1] for q in paths]))
+        r = paths[0].ret
+        chk.ob("C10.legacyid", "legacyId[%s]" % name, (r == 0) == want and isinstance(r, int),
+               "%s: expected %s, source returns %s" % (" ".join("%02x" % b for b in bs[:8]) + (" ..." if len(bs) > 8 else ""), "accepted" if want else "refused",
+                                                      hex(r) if isinstance(r, int) else r), loc=fn.loc(), fn=fn)
